@@ -128,6 +128,8 @@ def max_root(a):
     p = len(a) - 1
     if p == 0:
         return 0.0
+    if not np.all(np.isfinite(a)):
+        return float('inf')
     C = np.zeros((p, p), dtype=complex)
     C[0, :] = -a[1:]
     for i in range(1, p):
